@@ -55,6 +55,9 @@ func (interp *Interpreter) SingleStepStateTransition(pc ProgramCounter) (ExitRea
 		return exitReason, 0
 	case HOST_CALL: // host-call: newPC = pc
 		return exitReason, newPC
+	case PAGE_FAULT:
+		// the counter stays at the faulting instruction (GP A.1), as in the block engine
+		return exitReason, pc
 	}
 
 	if pc != newPC {
